@@ -12,7 +12,7 @@ CONSTANTS
   OutKinds <- KindsAll
   MCScopes <- ScopesTwo
   MCRoutes <- RoutesAll
-  MCExits <- Both
+  MCExits <- ExitsNo
   Emitting = TRUE
 INVARIANT PContained
 INVARIANT PZeroIff
